@@ -11,6 +11,7 @@ import (
 	"io"
 	"strconv"
 	"strings"
+	"time"
 )
 
 type RawMsg struct {
@@ -206,6 +207,32 @@ func writeRaw(w io.Writer, line string, hdr [][2]string, body []byte, chunks int
 	}
 	_, err := w.Write(b.Bytes())
 	return err
+}
+
+// writeTrickled sends a serialised message slowly: the head and the first third of what follows at
+// once, the other two thirds after one gap each. sleep returns false when the world has ended.
+func writeTrickled(w io.Writer, data []byte, gap time.Duration, sleep func(time.Duration) bool) error {
+	head := bytes.Index(data, []byte("\r\n\r\n"))
+	if head < 0 {
+		_, err := w.Write(data)
+		return err
+	}
+	head += 4
+	rest := len(data) - head
+	cuts := []int{head + rest/3, head + 2*rest/3, len(data)}
+	lo := 0
+	for i, hi := range cuts {
+		if hi > lo {
+			if _, err := w.Write(data[lo:hi]); err != nil {
+				return err
+			}
+		}
+		lo = hi
+		if i < len(cuts)-1 && !sleep(gap) {
+			return io.ErrClosedPipe
+		}
+	}
+	return nil
 }
 
 var hopByHop = map[string]bool{"connection": true, "keep-alive": true, "te": true, "trailer": true, "trailers": true, "transfer-encoding": true, "upgrade": true,
